@@ -409,7 +409,10 @@ func csLegal(method int, s uint8) int {
 		return -1
 	case cserve.MDecodeFrameConfig, cserve.MDecodeFrame: // "any decode_etc call jumps forward to the next matching method"
 		if meta {
-			return 0 // the document only says to call tell_me_more first; it does not name the status otherwise
+			// metadata is pending: the document says to call tell_me_more first, so a decode_* call here
+			// is out of order and the property's "reject out-of-order calls with 'bad call sequence'"
+			// applies (every std decoder that reports metadata does so on the unchanged tree; seeded C08-4)
+			return -1
 		}
 		return 1
 	}
